@@ -1,7 +1,7 @@
 (* C03 glue.  Requests from go/cmd/c03 (all numbers hex):
-     api     <rd> <inF> <outF> <dir> <inos>      rd/inF/outF = "<entry>.<spelling>" or "-"
-     copy    <src> <dst> <dir> <inos>
-     wr      <path> <dir> <inos>
+     api     <umask> <rd> <inF> <outF> <dir> <inos>      rd/inF/outF = "<entry>.<spelling>" or "-"
+     copy    <umask> <src> <dst> <dir> <inos>
+     wr      <umask> <path> <dir> <inos>
      aliases <in> <out> <dir> <inos>              -> true | false
    dir  = "<entry>:f:<inode>;<entry>:l:<target entry>;…"     inos = "<inode>:<mode>:<hex bytes>;…"
    The body of api is  read, write 02, read;  wr writes 02.
@@ -54,15 +54,15 @@ let render s0 rd r = match r with
 let body = [BRead; BWrite [n_of_int 2]; BRead]
 
 let dispatch fn args = match fn, args with
-  | "api", [rd; inF; outF; d; i] ->
+  | "api", [um; rd; inF; outF; d; i] ->
     let s0 = mk_state (dir_of d) (inos_of i) in
-    render s0 (sp_of rd) (run_api_i (sp_of rd) (sp_of inF) (sp_of outF) body s0)
-  | "copy", [src; dst; d; i] ->
+    render s0 (sp_of rd) (run_api_i (n_of_hex um) (sp_of rd) (sp_of inF) (sp_of outF) body s0)
+  | "copy", [um; src; dst; d; i] ->
     let s0 = mk_state (dir_of d) (inos_of i) in
-    render s0 (Some (sp_exn src)) (run_copy_i (sp_exn src) (sp_exn dst) s0)
-  | "wr", [path; d; i] ->
+    render s0 (Some (sp_exn src)) (run_copy_i (n_of_hex um) (sp_exn src) (sp_exn dst) s0)
+  | "wr", [um; path; d; i] ->
     let s0 = mk_state (dir_of d) (inos_of i) in
-    render s0 None (run_write_reader_i (sp_exn path) [BWrite [n_of_int 2]] s0)
+    render s0 None (run_write_reader_i (n_of_hex um) (sp_exn path) [BWrite [n_of_int 2]] s0)
   | "aliases", [a; b; d; i] ->
     str_of_bool (run_aliases (sp_exn a) (sp_exn b) (mk_state (dir_of d) (inos_of i)))
   | _ -> failwith ("unknown function " ^ fn)
